@@ -21,6 +21,16 @@ package cpusuppress
 //                  op 1 quota round (adjustByCfsQuota(arg) + status "using", as suppressBECPU does), 2 recoverCFSQuotaIfNeed,
 //                  3 somebody else writes arg into cpu.cfs_quota_us, 4 cpuset round adjustByCPUSet(arg)
 //                  obs = cpu.cfs_quota_us after every step
+//  kind 6 budget over a structured node object:
+//                  6 cap hasAlloc alloc anState anPolicy hasRes resMicro cpusStyle K cpus*K
+//                  thr hasMin minPct nodeU pertKind pertIdx pertDelta P pods H hosts   (pods/hosts as in kind 1)
+//                  anState ones digit: 0 node.Annotations nil, 1 no reservation entry (tens 0: key absent, 1: ""),
+//                  2 an entry that does not unmarshal (tens: 0 "{", 1 "null", 2 a JSON string, 3 bad quantity, 4 "[]"),
+//                  3 a JSON object (tens 1: a memory amount beside the cpu amount);
+//                  anPolicy 0 unset, 1 Default, 2 ReservedCPUsOnly, 3 another string; resMicro = resources.cpu in
+//                  micro-CPU; cpusStyle 0..4 legal spellings of reservedCPUs, 5 not a cpu list.
+//                  pertKind 5: applyPolicy becomes pertIdx; 6: allocatable shrinks by pertDelta.
+//  (kind 1: the hundreds digit of annoKind is the applyPolicy; kind 3: the hundreds digit of resKind is the applyPolicy.)
 
 import (
 	"flag"
@@ -59,7 +69,7 @@ type vtC10SI struct {
 	topo *topov1alpha1.NodeResourceTopology
 }
 
-func (s *vtC10SI) GetAllPods() []*statesinformer.PodMeta              { return s.pods }
+func (s *vtC10SI) GetAllPods() []*statesinformer.PodMeta           { return s.pods }
 func (s *vtC10SI) GetNodeTopo() *topov1alpha1.NodeResourceTopology { return s.topo }
 
 type vtC10MC struct {
@@ -199,10 +209,120 @@ func vtC10NewSuppress(si statesinformer.StatesInformer, mc metriccache.MetricCac
 
 // ---------------------------------------------------------------- kind 1: budget
 
+var vtC10Policies = []string{"", "Default", "ReservedCPUsOnly", "BestGuess"}
+
+func vtC10PolicyJSON(p int64) string {
+	if p <= 0 || int(p) >= len(vtC10Policies) {
+		return ""
+	}
+	return fmt.Sprintf(`,"applyPolicy":"%s"`, vtC10Policies[p])
+}
+
+// vtC10MicroStr renders a micro-CPU amount as a resource.Quantity string in the shortest of several spellings.
+func vtC10MicroStr(u int64) string {
+	switch {
+	case u%1000000 == 0:
+		return strconv.FormatInt(u/1000000, 10)
+	case u > 0 && u%100000 == 0:
+		return fmt.Sprintf("%d.%d", u/1000000, (u%1000000)/100000)
+	case u%1000 == 0:
+		return fmt.Sprintf("%dm", u/1000)
+	}
+	return fmt.Sprintf("%du", u)
+}
+
+type vtC10NodeSpec struct {
+	capM                         int64
+	hasAlloc                     bool
+	allocM                       int64
+	annotations                  map[string]string
+	thr, hasMin, minPct          int64
+	nodeU                        int64
+	pertKind, pertIdx, pertDelta int64
+	// for perturbation 5: the annotations with the other policy
+	annotationsPert map[string]string
+}
+
 func vtC10Budget(d *vtC10Rd) []int64 {
 	capM, allocM, annoKind, annoVal := d.next(), d.next(), d.next(), d.next()
-	thr, hasMin, minPct, nodeU := d.next(), d.next(), d.next(), d.next()
-	pertKind, pertIdx, pertDelta := d.next(), d.next(), d.next()
+	sp := &vtC10NodeSpec{capM: capM, hasAlloc: true, allocM: allocM}
+	sp.thr, sp.hasMin, sp.minPct, sp.nodeU = d.next(), d.next(), d.next(), d.next()
+	sp.pertKind, sp.pertIdx, sp.pertDelta = d.next(), d.next(), d.next()
+	mk := func(pol int64) map[string]string {
+		switch annoKind % 10 { // tens digit = spelling of the cpu list, hundreds digit = applyPolicy
+		case 1:
+			return map[string]string{apiext.AnnotationNodeReservation: fmt.Sprintf(`{"resources":{"cpu":"%dm"}%s}`, annoVal, vtC10PolicyJSON(pol))}
+		case 2:
+			ids := []int64{}
+			for i := int64(0); i < annoVal; i++ {
+				ids = append(ids, i)
+			}
+			return map[string]string{apiext.AnnotationNodeReservation: fmt.Sprintf(`{"reservedCPUs":"%s"%s}`, vtC10SetStrStyle(ids, (annoKind/10)%10), vtC10PolicyJSON(pol))}
+		case 3:
+			return map[string]string{"x": "y"}
+		}
+		return nil
+	}
+	sp.annotations = mk(annoKind / 100)
+	sp.annotationsPert = mk(sp.pertIdx)
+	return vtC10BudgetRun(d, sp)
+}
+
+func vtC10Budget6(d *vtC10Rd) []int64 {
+	sp := &vtC10NodeSpec{}
+	sp.capM = d.next()
+	sp.hasAlloc = d.next() != 0
+	sp.allocM = d.next()
+	anState, anPolicy, hasRes, resMicro, cpusStyle := d.next(), d.next(), d.next(), d.next(), d.next()
+	cpus := d.list()
+	sp.thr, sp.hasMin, sp.minPct, sp.nodeU = d.next(), d.next(), d.next(), d.next()
+	sp.pertKind, sp.pertIdx, sp.pertDelta = d.next(), d.next(), d.next()
+	mk := func(pol int64) map[string]string {
+		flavour := anState / 10
+		switch anState % 10 {
+		case 1:
+			if flavour == 1 {
+				return map[string]string{apiext.AnnotationNodeReservation: ""}
+			}
+			return map[string]string{"x": "y"}
+		case 2:
+			bad := []string{`{`, `null`, `"0-3"`, `{"resources":{"cpu":"four"}}`, `[]`}
+			return map[string]string{apiext.AnnotationNodeReservation: bad[int(flavour)%len(bad)]}
+		case 3:
+			fields := []string{}
+			if hasRes != 0 {
+				mem := ""
+				if flavour == 1 {
+					mem = `,"memory":"1Gi"`
+				}
+				fields = append(fields, fmt.Sprintf(`"resources":{"cpu":"%s"%s}`, vtC10MicroStr(resMicro), mem))
+			} else if flavour == 1 {
+				fields = append(fields, `"resources":{"memory":"1Gi"}`)
+			}
+			if len(cpus) > 0 {
+				str := vtC10SetStrStyle(cpus, cpusStyle%10)
+				if cpusStyle%10 == 5 {
+					str = vtC10SetStr(cpus) + ",x"
+				}
+				fields = append(fields, fmt.Sprintf(`"reservedCPUs":"%s"`, str))
+			}
+			if pj := vtC10PolicyJSON(pol); pj != "" {
+				fields = append(fields, pj[1:])
+			}
+			return map[string]string{apiext.AnnotationNodeReservation: "{" + strings.Join(fields, ",") + "}"}
+		}
+		return nil
+	}
+	sp.annotations = mk(anPolicy)
+	sp.annotationsPert = mk(sp.pertIdx)
+	return vtC10BudgetRun(d, sp)
+}
+
+// vtC10BudgetRun reads the pods / host applications and runs calculateBESuppressCPU on the input and on the
+// perturbed input.
+func vtC10BudgetRun(d *vtC10Rd, sp *vtC10NodeSpec) []int64 {
+	capM, thr, hasMin, minPct, nodeU := sp.capM, sp.thr, sp.hasMin, sp.minPct, sp.nodeU
+	pertKind, pertIdx, pertDelta := sp.pertKind, sp.pertIdx, sp.pertDelta
 	type podRec struct{ lab, kubeBE, inMeta, hasMetric, use int64 }
 	type hostRec struct{ qos, base, hasMetric, use int64 }
 	np := int(d.next())
@@ -216,24 +336,26 @@ func vtC10Budget(d *vtC10Rd) []int64 {
 		hosts = append(hosts, hostRec{d.next(), d.next(), d.next(), d.next()})
 	}
 
-	node := &corev1.Node{
-		ObjectMeta: metav1.ObjectMeta{Name: "n0"},
-		Status: corev1.NodeStatus{
-			Capacity:    corev1.ResourceList{corev1.ResourceCPU: *resource.NewMilliQuantity(capM, resource.DecimalSI)},
-			Allocatable: corev1.ResourceList{corev1.ResourceCPU: *resource.NewMilliQuantity(allocM, resource.DecimalSI)},
-		},
-	}
-	switch annoKind % 10 { // tens digit = spelling of the cpu list
-	case 1:
-		node.Annotations = map[string]string{apiext.AnnotationNodeReservation: fmt.Sprintf(`{"resources":{"cpu":"%dm"}}`, annoVal)}
-	case 2:
-		ids := []int64{}
-		for i := int64(0); i < annoVal; i++ {
-			ids = append(ids, i)
+	mkNode := func(pert bool) *corev1.Node {
+		node := &corev1.Node{
+			ObjectMeta: metav1.ObjectMeta{Name: "n0"},
+			Status: corev1.NodeStatus{
+				Capacity:    corev1.ResourceList{corev1.ResourceCPU: *resource.NewMilliQuantity(capM, resource.DecimalSI)},
+				Allocatable: corev1.ResourceList{corev1.ResourceMemory: resource.MustParse("8Gi")},
+			},
 		}
-		node.Annotations = map[string]string{apiext.AnnotationNodeReservation: fmt.Sprintf(`{"reservedCPUs":"%s"}`, vtC10SetStrStyle(ids, annoKind/10))}
-	case 3:
-		node.Annotations = map[string]string{"x": "y"}
+		if sp.hasAlloc {
+			a := sp.allocM
+			if pert && pertKind == 6 {
+				a -= pertDelta
+			}
+			node.Status.Allocatable[corev1.ResourceCPU] = *resource.NewMilliQuantity(a, resource.DecimalSI)
+		}
+		node.Annotations = sp.annotations
+		if pert && pertKind == 5 {
+			node.Annotations = sp.annotationsPert
+		}
+		return node
 	}
 	var minP *int64
 	if hasMin != 0 {
@@ -243,6 +365,7 @@ func vtC10Budget(d *vtC10Rd) []int64 {
 	r := newTestCPUSuppress(&framework.Options{Config: framework.NewDefaultConfig(), MetricAdvisorConfig: maframework.NewDefaultConfig()})
 
 	run := func(pert bool) int64 {
+		node := mkNode(pert)
 		nodeUse := nodeU
 		var metas []*statesinformer.PodMeta
 		podMetrics := map[string]float64{}
@@ -342,8 +465,8 @@ func vtC10CPUSet(d *vtC10Rd) []int64 {
 
 	anno := map[string]string{}
 	// the tens digit of resKind / sysKind / a pod's label code selects the spelling of the cpu list
-	if resKind%10 == 1 {
-		anno[apiext.AnnotationNodeReservation] = fmt.Sprintf(`{"reservedCPUs":"%s"}`, vtC10SetStrStyle(res, resKind/10))
+	if resKind%10 == 1 { // hundreds digit: applyPolicy (plays no part in which cpus are reserved)
+		anno[apiext.AnnotationNodeReservation] = fmt.Sprintf(`{"reservedCPUs":"%s"%s}`, vtC10SetStrStyle(res, (resKind/10)%10), vtC10PolicyJSON(resKind/100))
 	}
 	sysStr := vtC10SetStrStyle(sys, sysKind/10)
 	switch sysKind % 10 {
@@ -387,7 +510,7 @@ func vtC10Quota(d *vtC10Rd) []int64 {
 	budget, capM, cur := d.next(), d.next(), d.next()
 	node := &corev1.Node{
 		ObjectMeta: metav1.ObjectMeta{Name: "n0"},
-		Status: corev1.NodeStatus{Capacity: corev1.ResourceList{corev1.ResourceCPU: *resource.NewMilliQuantity(capM, resource.DecimalSI)}},
+		Status:     corev1.NodeStatus{Capacity: corev1.ResourceList{corev1.ResourceCPU: *resource.NewMilliQuantity(capM, resource.DecimalSI)}},
 	}
 	helper := system.NewFileTestUtil(vtC10T)
 	defer helper.Cleanup()
@@ -410,7 +533,7 @@ func vtC10History(d *vtC10Rd) []int64 {
 	n := int(d.next())
 	node := &corev1.Node{
 		ObjectMeta: metav1.ObjectMeta{Name: "n0"},
-		Status: corev1.NodeStatus{Capacity: corev1.ResourceList{corev1.ResourceCPU: *resource.NewMilliQuantity(capM, resource.DecimalSI)}},
+		Status:     corev1.NodeStatus{Capacity: corev1.ResourceList{corev1.ResourceCPU: *resource.NewMilliQuantity(capM, resource.DecimalSI)}},
 	}
 	helper := system.NewFileTestUtil(vtC10T)
 	defer helper.Cleanup()
@@ -458,6 +581,8 @@ func vtC10Exec(in []int64) []int64 {
 		return vtC10Quota(d)
 	case 5:
 		return vtC10History(d)
+	case 6:
+		return vtC10Budget6(d)
 	}
 	return []int64{-1}
 }
@@ -635,10 +760,76 @@ func vtC10GenBudget(r *rand.Rand) (string, []int64) {
 		}
 	}
 	pertDelta := []int64{1, 1, 2, 7, 64, r.Int63n(capU/4 + 1)}[r.Intn(6)]
-	in := []int64{1, capM, allocM, annoKind + 10*annoStyle, annoVal, thr, hasMin, minPct, nodeU, pertKind, pertIdx, pertDelta}
+	// the reservation annotation's applyPolicy (hundreds digit) and the two perturbations about the reservation
+	annoPolicy := int64(0)
+	if (annoKind == 1 || annoKind == 2) && r.Intn(2) == 0 {
+		annoPolicy = int64(1 + r.Intn(3))
+	}
+	switch r.Intn(8) {
+	case 0, 1:
+		pertKind, pertIdx = 5, int64(r.Intn(4))
+	case 2:
+		pertKind, pertIdx = 6, 0
+		pertDelta = []int64{1, 125, 1000, int64(r.Intn(3000))}[r.Intn(4)]
+	}
+	in := []int64{1, capM, allocM, annoKind + 10*annoStyle + 100*annoPolicy, annoVal, thr, hasMin, minPct, nodeU, pertKind, pertIdx, pertDelta}
 	in = append(in, pods...)
 	in = append(in, hosts...)
 	return label, in
+}
+
+// vtC10GenBudget6 draws a budget case over a structured node object: the consumption part comes from
+// vtC10GenBudget, the node (allocatable present or not, reservation annotation with resources / reservedCPUs /
+// applyPolicy in every combination, unreadable annotations) is drawn here.
+func vtC10GenBudget6(r *rand.Rand) (string, []int64) {
+	label, in := vtC10GenBudget(r)
+	capM, allocM := in[1], in[2]
+	tail := in[5:] // thr hasMin minPct nodeU pertKind pertIdx pertDelta P pods H hosts
+	hasAlloc := vtB(r.Intn(12) != 0)
+	var anState int64
+	switch r.Intn(8) {
+	case 0:
+		anState = 0
+	case 1:
+		anState = 1 + 10*int64(r.Intn(2))
+	case 2:
+		anState = 2 + 10*int64(r.Intn(5))
+		label += "-unreadable"
+	default:
+		anState = 3 + 10*int64(r.Intn(2))
+	}
+	anPolicy := int64(r.Intn(4))
+	if r.Intn(3) == 0 {
+		anPolicy = 2
+	}
+	hasRes := vtB(r.Intn(2) == 0)
+	resMicro := []int64{0, 500000, 1000000, 1500000, 2000000, 4000000, 1500500, 999, -1000000, -2500,
+		int64(r.Intn(6000)) * 1000, int64(r.Intn(6000000))}[r.Intn(12)]
+	cpus := []int64{}
+	switch r.Intn(3) {
+	case 0:
+		for i := int64(0); i < int64(1+r.Intn(6)); i++ {
+			cpus = append(cpus, i)
+		}
+	case 1:
+		all := []int64{}
+		for i := int64(0); i < 16; i++ {
+			all = append(all, i)
+		}
+		cpus = vtC10Subset(r, all, 1+r.Intn(6))
+	}
+	cpusStyle := int64(0)
+	if r.Intn(2) == 0 {
+		cpusStyle = int64(1 + r.Intn(4))
+	}
+	if len(cpus) > 0 && r.Intn(10) == 0 {
+		cpusStyle = 5
+		label += "-badcpus"
+	}
+	out := []int64{6, capM, hasAlloc, allocM, anState, anPolicy, hasRes, resMicro, cpusStyle}
+	out = append(out, vtC10EncList(cpus)...)
+	out = append(out, tail...)
+	return label, out
 }
 
 func vtC10GenPick(r *rand.Rand) (string, []int64) {
@@ -788,6 +979,9 @@ func vtC10GenCPUSet(r *rand.Rand) (string, []int64) {
 	}
 	if resKind == 1 {
 		resKind += 10 * sty()
+		if r.Intn(2) == 0 {
+			resKind += 100 * int64(1+r.Intn(3)) // applyPolicy of the reservation annotation
+		}
 	}
 	if sysKind != 0 {
 		sysKind += 10 * sty()
@@ -879,8 +1073,13 @@ func vtC10GenHistory(r *rand.Rand) (string, []int64) {
 
 func vtC10Gen(r *rand.Rand, i int) (string, []int64) {
 	switch i % 10 {
-	case 0, 1:
-		return vtC10GenBudget(r)
+	case 0:
+		if r.Intn(3) == 0 {
+			return vtC10GenBudget(r)
+		}
+		return vtC10GenBudget6(r)
+	case 1:
+		return vtC10GenBudget6(r)
 	case 2, 3, 4:
 		return vtC10GenPick(r)
 	case 5, 6:
